@@ -54,6 +54,8 @@ def spec(tier, seed, repo):
               "t+1-bits(+-)", "2^2048-1(+-)", "2^2048(+-)", "ULONG_MAX"):
         floors["pw.expclass." + c] = 500
     floors["pw.wrong_table_base_refused"] = 500
+    floors["pw.tmcg_mpz_fpowm.judged_result_aliases_exponent"] = 10000
+    floors["pw.tmcg_mpz_fspowm.judged_result_aliases_exponent"] = 10000
     floors["pw.zero_modulus_precompute_refused"] = 20
     for f in SQ:
         floors["sq.%s.judged" % f] = 100000
@@ -92,6 +94,8 @@ def spec(tier, seed, repo):
              "beyond the precomputed table, non-residues, negative conversions) are counted separately",
         assumptions=["exponentiation is judged for bases coprime to an odd modulus > 1 and exponents within the "
                      "precomputed table length; longer exponents (still <= TMCG_MAX_FPOWM_T) are recorded only",
+                     "argument aliasing is judged in the shape the library itself uses (result = exponent variable on the "
+                     "table functions); other aliasing shapes are counted only",
                      "square roots are judged for units that are squares (both Legendre symbols +1); zero, "
                      "non-residues and non-unit squares are counted only; p = 2 is outside the algorithms' domain",
                      "interpolation moduli are prime; primes of the references come from mpz_nextprime-style search "
